@@ -3,6 +3,414 @@ import Cpl.Spec.Torus
 /-! # Helper lemmas about the 2D evolution model (C02, and reused by C04/C05/C06/C09/C11/C14). -/
 
 namespace Cpl
-open Py
+open Py Spec
+
+/-! ## The per-axis index list (`np.ix_` is a product: the wrap lemma is used once per axis) -/
+
+theorem axisIdx_length' (n start len r : Nat) : (axisIdx n start len r).length = len + 2 * r := by
+  simp [axisIdx]
+
+/-- The entry the code computes for position `k` of an axis, resolved the NumPy way. -/
+theorem resolve_wrap (n start r k : Nat) (hr : r ≤ n) (hs : start + k < n + 2 * r) :
+    resolve n (if (start : Int) - (r : Int) + (k : Int) > (n : Int) - 1
+        then (start : Int) - (r : Int) + (k : Int) - n else (start : Int) - (r : Int) + (k : Int))
+      = (start + k + n - r) % n := by
+  unfold resolve
+  rcases Nat.lt_or_ge (start + k) r with h | h
+  · have h1 : ¬ ((start : Int) - (r : Int) + (k : Int) > (n : Int) - 1) := by omega
+    have h2 : (start : Int) - (r : Int) + (k : Int) < 0 := by omega
+    simp only [h1, if_false, h2, if_true]
+    rw [Nat.mod_eq_of_lt (by omega)]; omega
+  · rcases Nat.lt_or_ge (start + k) (r + n) with h' | h'
+    · have h1 : ¬ ((start : Int) - (r : Int) + (k : Int) > (n : Int) - 1) := by omega
+      have h2 : ¬ (start : Int) - (r : Int) + (k : Int) < 0 := by omega
+      simp only [h1, if_false, h2]
+      have : start + k + n - r = (start + k - r) + n := by omega
+      rw [this, Nat.add_mod_right, Nat.mod_eq_of_lt (by omega)]; omega
+    · have h1 : ((start : Int) - (r : Int) + (k : Int) > (n : Int) - 1) := by omega
+      have h2 : ¬ (start : Int) - (r : Int) + (k : Int) - n < 0 := by omega
+      simp only [h1, if_true, h2, if_false]
+      have : start + k + n - r = (start + k - r - n) + n + n := by omega
+      rw [this, Nat.add_mod_right, Nat.add_mod_right, Nat.mod_eq_of_lt (by omega)]; omega
+
+theorem axisIdx_map_resolve (n start len r : Nat) (hr : r ≤ n) (hb : start + len ≤ n) :
+    (axisIdx n start len r).map (resolve n)
+      = (List.range (len + 2 * r)).map fun k => (start + k + n - r) % n := by
+  unfold axisIdx
+  rw [List.map_map]
+  apply List.map_congr_left
+  intro k hk
+  have hk : k < len + 2 * r := by simpa using hk
+  exact resolve_wrap n start r k hr (by omega)
+
+theorem axisIdx_getElem?_resolve (n start len r k : Nat) (hr : r ≤ n) (hb : start + len ≤ n)
+    (hk : k < len + 2 * r) :
+    ((axisIdx n start len r)[k]?).map (resolve n) = some ((start + k + n - r) % n) := by
+  rw [← List.getElem?_map, axisIdx_map_resolve n start len r hr hb, List.getElem?_map,
+    List.getElem?_range hk]
+  rfl
+
+/-! ## The von Neumann mask -/
+
+theorem vnMask_entry (r i j : Nat) (hi : i < 2 * r + 1) (hj : j < 2 * r + 1) :
+    (decide (j < (if i ≤ r then r - i else i - r))
+      || (decide ((if i ≤ r then r - i else i - r) ≠ 0)
+          && decide (2 * r + 1 - (if i ≤ r then r - i else i - r) ≤ j)))
+      = decide (dist i r + dist j r > r) := by
+  unfold dist
+  rw [Bool.eq_iff_iff]
+  simp only [Bool.or_eq_true, Bool.and_eq_true, decide_eq_true_eq]
+  by_cases h1 : i ≤ r <;> by_cases h2 : j ≤ r <;> simp only [h1, h2, if_true, if_false] <;> omega
+
+theorem vnMaskRow_eq (r i : Nat) (hi : i < 2 * r + 1) :
+    vnMaskRow r i = (List.range (2 * r + 1)).map fun j => decide (dist i r + dist j r > r) := by
+  unfold vnMaskRow
+  apply List.map_congr_left
+  intro j hj
+  have hj : j < 2 * r + 1 := by simpa using hj
+  exact vnMask_entry r i j hi hj
+
+theorem vonNeumannMask_eq (r : Nat) :
+    vonNeumannMask r = (List.range (2 * r + 1)).map fun i =>
+      (List.range (2 * r + 1)).map fun j => decide (dist i r + dist j r > r) := by
+  unfold vonNeumannMask
+  apply List.map_congr_left
+  intro i hi
+  exact vnMaskRow_eq r i (by simpa using hi)
+
+/-! ## Rectangular grids, `blockAt`, `getNeighbourhood` -/
+
+section
+variable {σ α : Type}
+
+theorem Rect_getElem!_length [Inhabited α] {g : Grid α} {R C : Nat} (hg : Rect g R C) {i : Nat}
+    (hi : i < R) : (g[i]!).length = C := by
+  have hi' : i < g.length := by rw [hg.1]; exact hi
+  rw [getElem!_pos g i hi']
+  exact hg.2 _ (List.getElem_mem hi')
+
+theorem Rect_gridCols {g : Grid α} {R C : Nat} (hg : Rect g R C) (hR : 1 ≤ R) : gridCols g = C := by
+  obtain ⟨h1, h2⟩ := hg
+  cases g with
+  | nil => simp at h1; omega
+  | cons row rest => simp [Cpl.gridCols, h2 row (by simp)]
+
+theorem ix2_axis_eq [Inhabited α] (g : Grid α) (R C r r0 h c0 w : Nat) (hg : Rect g R C)
+    (hR : r ≤ R) (hC : r ≤ C) (hr : r0 + h ≤ R) (hc : c0 + w ≤ C) (hR1 : 1 ≤ R) :
+    ix2 g (axisIdx R r0 h r) (axisIdx C c0 w r)
+      = (List.range (h + 2 * r)).map fun a =>
+          (List.range (w + 2 * r)).map fun b => (g[(r0 + a + R - r) % R]!)[(c0 + b + C - r) % C]! := by
+  show List.map (fun i => List.map (fun j => (g[resolve g.length i]!)[resolve (g[resolve g.length i]!).length j]!)
+    (axisIdx C c0 w r)) (axisIdx R r0 h r) = _
+  rw [hg.1]
+  have e1 := axisIdx_map_resolve R r0 h r hR hr
+  have e2 := axisIdx_map_resolve C c0 w r hC hc
+  have step1 : List.map (fun i => List.map (fun j => (g[resolve R i]!)[resolve (g[resolve R i]!).length j]!)
+      (axisIdx C c0 w r)) (axisIdx R r0 h r)
+      = List.map (fun i => List.map (fun j => (g[i]!)[resolve (g[i]!).length j]!) (axisIdx C c0 w r))
+          (List.map (resolve R) (axisIdx R r0 h r)) := by
+    rw [List.map_map]; rfl
+  rw [step1, e1, List.map_map]
+  apply List.map_congr_left
+  intro a _
+  simp only [Function.comp]
+  have hlen : (g[(r0 + a + R - r) % R]!).length = C := Rect_getElem!_length hg (Nat.mod_lt _ (by omega))
+  rw [hlen]
+  have step2 : List.map (fun j => (g[(r0 + a + R - r) % R]!)[resolve C j]!) (axisIdx C c0 w r)
+      = List.map (fun j => (g[(r0 + a + R - r) % R]!)[j]!) (List.map (resolve C) (axisIdx C c0 w r)) := by
+    rw [List.map_map]; rfl
+  rw [step2, e2, List.map_map]
+  rfl
+
+theorem blockAt_eq_torusWindow [Inhabited α] (g : Grid α) (R C r row col : Nat) (hg : Rect g R C)
+    (hR : r ≤ R) (hC : r ≤ C) (hrow : row < R) (hcol : col < C) :
+    blockAt g r row col = torusWindow g R C r row col := by
+  unfold blockAt
+  rw [Rect_gridCols hg (by omega), hg.1, ix2_axis_eq g R C r row 1 col 1 hg hR hC (by omega) (by omega) (by omega)]
+  rw [Nat.add_comm 1 (2 * r)]
+  rfl
+
+theorem applyMask_torusWindow [Inhabited α] (g : Grid α) (R C r : Nat) (vn : Bool) (row col : Nat) :
+    applyMask (torusWindow g R C r row col) (if vn then some (vonNeumannMask r) else none)
+      = nbhd g R C r vn row col := by
+  cases vn with
+  | false =>
+    simp [applyMask, torusWindow, nbhd, List.map_map, Function.comp_def]
+  | true =>
+    simp only [if_true, applyMask, torusWindow, nbhd, vonNeumannMask_eq, List.zip_map', List.map_map]
+    apply List.map_congr_left
+    intro a _
+    simp only [Function.comp, List.zip_map', List.map_map]
+    apply List.map_congr_left
+    intro b _
+    simp
+
+theorem getNeighbourhood_eq_nbhd [Inhabited α] (g : Grid α) (R C r : Nat) (vn : Bool) (row col : Nat)
+    (hg : Rect g R C) (hR : r ≤ R) (hC : r ≤ C) (hrow : row < R) (hcol : col < C) :
+    getNeighbourhood g r vn row col = nbhd g R C r vn row col := by
+  unfold getNeighbourhood
+  rw [blockAt_eq_torusWindow g R C r row col hg hR hC hrow hcol, applyMask_torusWindow]
+
+/-! ## Cell access, `setCell`, writing a list of cells -/
+
+/-- `g[i][j]` as an option. -/
+def cellAt? (g : Grid α) (i j : Nat) : Option α := g[i]?.bind (·[j]?)
+
+theorem setCell_length (g : Grid α) (i j : Nat) (v : α) : (setCell g i j v).length = g.length := by
+  simp [setCell]
+
+theorem setCell_rect {g : Grid α} {R C : Nat} (hg : Rect g R C) (i j : Nat) (v : α) :
+    Rect (setCell g i j v) R C := by
+  refine ⟨by rw [setCell_length]; exact hg.1, ?_⟩
+  intro row hrow
+  obtain ⟨k, hk⟩ := List.mem_iff_getElem?.1 hrow
+  unfold setCell at hk
+  rw [List.getElem?_modify] at hk
+  cases hgk : g[k]? with
+  | none => rw [hgk] at hk; simp at hk
+  | some a =>
+    rw [hgk] at hk
+    have ha : a.length = C := hg.2 a (List.mem_of_getElem? hgk)
+    simp only [Option.map_eq_map, Option.map_some, Option.some.injEq] at hk
+    rw [← hk]
+    split <;> simp [ha]
+
+theorem cellAt?_setCell_ne (g : Grid α) (i j i' j' : Nat) (v : α) (h : ¬ (i' = i ∧ j' = j)) :
+    cellAt? (setCell g i j v) i' j' = cellAt? g i' j' := by
+  unfold cellAt? setCell
+  rw [List.getElem?_modify]
+  cases g[i']? with
+  | none => rfl
+  | some a =>
+    simp only [Option.map_eq_map, Option.map_some, Option.bind_some]
+    by_cases hi : i = i'
+    · simp only [hi, if_true]
+      rw [List.getElem?_set]
+      have : ¬ j = j' := by intro hj; exact h ⟨hi.symm, hj.symm⟩
+      simp [this]
+    · simp [hi]
+
+theorem cellAt?_setCell_self {g : Grid α} {R C : Nat} (hg : Rect g R C) (i j : Nat) (v : α)
+    (hi : i < R) (hj : j < C) : cellAt? (setCell g i j v) i j = some v := by
+  unfold cellAt? setCell
+  rw [List.getElem?_modify]
+  have hi' : i < g.length := by rw [hg.1]; exact hi
+  rw [List.getElem?_eq_getElem hi']
+  have hlen : (g[i]).length = C := hg.2 _ (List.getElem_mem hi')
+  simp only [Option.map_eq_map, Option.map_some, Option.bind_some, if_true]
+  rw [List.getElem?_set]
+  simp [hlen, hj]
+
+/-- `next[i][j] = v` for the cells of `cs` paired with the values `vs`, in order. -/
+def writeCells (next : Grid α) : List (Nat × Nat) → List α → Grid α
+  | (i, j) :: cs, v :: vs => writeCells (setCell next i j v) cs vs
+  | [], _ => next
+  | _ :: _, [] => next
+
+theorem writeCells_rect {R C : Nat} :
+    ∀ (cs : List (Nat × Nat)) (vs : List α) (next : Grid α), Rect next R C → Rect (writeCells next cs vs) R C
+  | [], _, _, h => by simpa [writeCells] using h
+  | _ :: _, [], _, h => by simpa [writeCells] using h
+  | (i, j) :: cs, v :: vs, next, h => by
+    simp only [writeCells]
+    exact writeCells_rect cs vs _ (setCell_rect h i j v)
+
+theorem cellAt?_writeCells_notin (i j : Nat) :
+    ∀ (cs : List (Nat × Nat)) (vs : List α) (next : Grid α), (i, j) ∉ cs →
+      cellAt? (writeCells next cs vs) i j = cellAt? next i j
+  | [], _, _, _ => by simp [writeCells]
+  | _ :: _, [], _, _ => by simp [writeCells]
+  | (i', j') :: cs, v :: vs, next, h => by
+    simp only [writeCells]
+    have h1 : (i, j) ∉ cs := fun hm => h (List.mem_cons_of_mem _ hm)
+    have h2 : ¬ (i = i' ∧ j = j') := by
+      rintro ⟨rfl, rfl⟩; exact h (List.mem_cons_self ..)
+    rw [cellAt?_writeCells_notin i j cs vs _ h1, cellAt?_setCell_ne _ _ _ _ _ _ h2]
+
+theorem cellAt?_writeCells {R C : Nat} (i j : Nat) :
+    ∀ (cs : List (Nat × Nat)) (vs : List α) (next : Grid α) (k : Nat), Rect next R C → cs.Nodup →
+      cs.length = vs.length → (∀ c ∈ cs, c.1 < R ∧ c.2 < C) → cs[k]? = some (i, j) →
+      cellAt? (writeCells next cs vs) i j = vs[k]?
+  | [], _, _, _, _, _, _, _, hk => by simp at hk
+  | _ :: _, [], _, _, _, _, hl, _, _ => by simp at hl
+  | (i', j') :: cs, v :: vs, next, 0, hn, hnd, _, hb, hk => by
+    simp only [List.getElem?_cons_zero, Option.some.injEq, Prod.mk.injEq] at hk
+    obtain ⟨rfl, rfl⟩ := hk
+    simp only [writeCells, List.getElem?_cons_zero]
+    rw [cellAt?_writeCells_notin _ _ cs vs _ (List.nodup_cons.1 hnd).1]
+    have := hb (i', j') (List.mem_cons_self ..)
+    exact cellAt?_setCell_self hn _ _ v this.1 this.2
+  | (i', j') :: cs, v :: vs, next, k + 1, hn, hnd, hl, hb, hk => by
+    simp only [writeCells, List.getElem?_cons_succ] at hk ⊢
+    exact cellAt?_writeCells i j cs vs _ k (setCell_rect hn _ _ v) (List.nodup_cons.1 hnd).2
+      (by simpa using hl) (fun c hc => hb c (List.mem_cons_of_mem _ hc)) hk
+
+theorem grid_ext {a b : Grid α} {R C : Nat} (ha : Rect a R C) (hb : Rect b R C)
+    (h : ∀ i j, i < R → j < C → cellAt? a i j = cellAt? b i j) : a = b := by
+  apply List.ext_getElem (by rw [ha.1, hb.1])
+  intro i h1 h2
+  have hla : (a[i]).length = C := ha.2 _ (List.getElem_mem h1)
+  have hlb : (b[i]).length = C := hb.2 _ (List.getElem_mem h2)
+  apply List.ext_getElem (by rw [hla, hlb])
+  intro j h3 h4
+  have := h i j (by rw [← ha.1]; exact h1) (by rw [← hla]; exact h3)
+  unfold cellAt? at this
+  rw [List.getElem?_eq_getElem h1, List.getElem?_eq_getElem h2] at this
+  simp only [Option.bind_some] at this
+  rw [List.getElem?_eq_getElem h3, List.getElem?_eq_getElem h4] at this
+  exact Option.some.inj this
+
+/-! ## `cellsRowMajor` -/
+
+theorem cellsRowMajor_succ (R C : Nat) :
+    cellsRowMajor (R + 1) C = cellsRowMajor R C ++ (List.range C).map fun j => (R, j) := by
+  simp [cellsRowMajor, List.range_succ, List.flatMap_append]
+
+theorem cellsRowMajor_length (R C : Nat) : (cellsRowMajor R C).length = R * C := by
+  induction R with
+  | zero => simp [cellsRowMajor]
+  | succ R ih => rw [cellsRowMajor_succ, List.length_append, ih, Nat.succ_mul]; simp
+
+theorem cellsRowMajor_getElem? (R C : Nat) :
+    ∀ i j, i < R → j < C → (cellsRowMajor R C)[i * C + j]? = some (i, j) := by
+  induction R with
+  | zero => intro i j hi; omega
+  | succ R ih =>
+    intro i j hi hj
+    rw [cellsRowMajor_succ]
+    rcases Nat.lt_or_ge i R with h | h
+    · have hlt : i * C + j < R * C := by
+        have : (i + 1) * C ≤ R * C := Nat.mul_le_mul_right C h
+        rw [Nat.succ_mul] at this; omega
+      rw [List.getElem?_append_left (by rw [cellsRowMajor_length]; exact hlt)]
+      exact ih i j h hj
+    · have hi' : i = R := by omega
+      subst hi'
+      rw [List.getElem?_append_right (by rw [cellsRowMajor_length]; omega), cellsRowMajor_length]
+      have : i * C + j - i * C = j := by omega
+      rw [this, List.getElem?_map, List.getElem?_range hj]
+      rfl
+
+theorem mem_cellsRowMajor (R C : Nat) (c : Nat × Nat) : c ∈ cellsRowMajor R C ↔ c.1 < R ∧ c.2 < C := by
+  obtain ⟨i, j⟩ := c
+  simp only [cellsRowMajor, List.mem_flatMap, List.mem_range, List.mem_map, Prod.mk.injEq]
+  constructor
+  · rintro ⟨a, ha, b, hb, rfl, rfl⟩; exact ⟨ha, hb⟩
+  · rintro ⟨h1, h2⟩; exact ⟨i, h1, j, h2, rfl, rfl⟩
+
+theorem cellsRowMajor_nodup (R C : Nat) : (cellsRowMajor R C).Nodup := by
+  unfold cellsRowMajor
+  rw [List.nodup_iff_pairwise_ne, List.pairwise_flatMap]
+  constructor
+  · intro a _
+    rw [List.pairwise_map]
+    exact (List.nodup_range (n := C)).imp (fun h he => h (by simpa using he))
+  · refine (List.nodup_range (n := R)).imp ?_
+    intro a b hab x hx y hy hxy
+    simp only [List.mem_map, List.mem_range] at hx hy
+    obtain ⟨_, _, rfl⟩ := hx
+    obtain ⟨_, _, rfl⟩ := hy
+    exact hab (by simpa using congrArg Prod.fst hxy)
+
+/-! ## The plain sweep is the specification step -/
+
+theorem cellVals_length [Inhabited α] (rule : Rule2 σ α) (g : Grid α) (R C r : Nat) (vn : Bool) (t : Nat) :
+    ∀ (cs : List (Nat × Nat)) (s : σ), (cellVals rule g R C r vn t cs s).1.length = cs.length
+  | [], _ => rfl
+  | (i, j) :: cs, s => by
+    simp only [cellVals, List.length_cons]
+    rw [cellVals_length rule g R C r vn t cs]
+
+theorem plainSweep_eq_writeCells [Inhabited α] (rule : Rule2 σ α) (g : Grid α) (R C r : Nat) (vn : Bool)
+    (t : Nat) (hg : Rect g R C) (hR : r ≤ R) (hC : r ≤ C) :
+    ∀ (cs : List (Nat × Nat)) (next : Grid α) (s : σ), (∀ c ∈ cs, c.1 < R ∧ c.2 < C) →
+      plainSweep rule g r vn t cs next s
+        = (writeCells next cs (cellVals rule g R C r vn t cs s).1, (cellVals rule g R C r vn t cs s).2)
+  | [], _, _, _ => rfl
+  | (i, j) :: cs, next, s, hb => by
+    have hij := hb (i, j) (List.mem_cons_self ..)
+    simp only [plainSweep, cellVals, writeCells]
+    rw [getNeighbourhood_eq_nbhd g R C r vn i j hg hR hC hij.1 hij.2]
+    rw [plainSweep_eq_writeCells rule g R C r vn t hg hR hC cs _ _
+      (fun c hc => hb c (List.mem_cons_of_mem _ hc))]
+
+theorem zeroGrid_rect [Inhabited α] (R C : Nat) : Rect (zeroGrid R C : Grid α) R C := by
+  constructor
+  · simp [zeroGrid]
+  · intro row hrow
+    simp only [zeroGrid, List.mem_replicate] at hrow
+    rw [hrow.2]; simp
+
+theorem reshape_rect [Inhabited α] (vals : List α) (R C : Nat) :
+    Rect ((List.range R).map fun i => (List.range C).map fun j => vals[i * C + j]!) R C := by
+  constructor
+  · simp
+  · intro row hrow
+    simp only [List.mem_map, List.mem_range] at hrow
+    obtain ⟨i, _, rfl⟩ := hrow
+    simp
+
+theorem writeCells_rowMajor [Inhabited α] (vals : List α) (R C : Nat) (hl : vals.length = R * C) :
+    writeCells (zeroGrid R C) (cellsRowMajor R C) vals
+      = (List.range R).map fun i => (List.range C).map fun j => vals[i * C + j]! := by
+  apply grid_ext (writeCells_rect _ _ _ (zeroGrid_rect R C)) (reshape_rect vals R C)
+  intro i j hi hj
+  have hk := cellsRowMajor_getElem? R C i j hi hj
+  rw [cellAt?_writeCells i j _ vals _ (i * C + j) (zeroGrid_rect R C) (cellsRowMajor_nodup R C)
+    (by rw [cellsRowMajor_length, hl]) (fun c hc => (mem_cellsRowMajor R C c).1 hc) hk]
+  have hlt : i * C + j < vals.length := by
+    have h' := (List.getElem?_eq_some_iff.1 hk).1
+    rw [cellsRowMajor_length] at h'
+    rw [hl]; exact h'
+  unfold cellAt?
+  rw [List.getElem?_map, List.getElem?_range hi]
+  simp only [Option.map_some, Option.bind_some]
+  rw [List.getElem?_map, List.getElem?_range hj]
+  simp only [Option.map_some]
+  rw [List.getElem?_eq_getElem hlt, getElem!_pos vals _ hlt]
+
+theorem step2_plain [DecidableEq α] [Inhabited α] (rule : Rule2 σ α) (g : Grid α) (R C r : Nat)
+    (vn : Bool) (t : Nat) (cs : Caches2 α) (s : σ) (hg : Rect g R C) (hR1 : 1 ≤ R)
+    (hR : r ≤ R) (hC : r ≤ C) :
+    Cpl.step2 .plain rule r vn g t cs s
+      = ((Spec.step2 rule g R C r vn t s).1, cs, (Spec.step2 rule g R C r vn t s).2) := by
+  simp only [Cpl.step2, Spec.step2]
+  rw [hg.1, Rect_gridCols hg hR1,
+    plainSweep_eq_writeCells rule g R C r vn t hg hR hC _ _ _ (fun c hc => (mem_cellsRowMajor R C c).1 hc)]
+  simp only
+  rw [writeCells_rowMajor _ R C (by rw [cellVals_length, cellsRowMajor_length])]
+
+theorem spec_step2_rect [Inhabited α] (rule : Rule2 σ α) (g : Grid α) (R C r : Nat) (vn : Bool) (t : Nat)
+    (s : σ) : Rect (Spec.step2 rule g R C r vn t s).1 R C := by
+  simp only [Spec.step2]
+  exact reshape_rect _ R C
+
+theorem fixedLoop2_plain [DecidableEq α] [Inhabited α] (rule : Rule2 σ α) (R C r : Nat) (vn : Bool)
+    (hR1 : 1 ≤ R) (hR : r ≤ R) (hC : r ≤ C) :
+    ∀ (k t : Nat) (g : Grid α) (cs : Caches2 α) (s : σ), Rect g R C →
+      fixedLoop2 .plain rule r vn k t g cs s
+        = ((run2 rule R C r vn k t g s).1, cs, (run2 rule R C r vn k t g s).2)
+  | 0, _, _, _, _, _ => rfl
+  | k + 1, t, g, cs, s, hg => by
+    simp only [fixedLoop2, run2]
+    rw [step2_plain rule g R C r vn t cs s hg hR1 hR hC]
+    simp only
+    rw [fixedLoop2_plain rule R C r vn hR1 hR hC k (t + 1) _ cs _ (spec_step2_rect rule g R C r vn t s)]
+
+/-! ## Call trace -/
+
+theorem cellVals_logged [Inhabited α] (rule : Rule2 σ α) (g : Grid α) (R C r : Nat) (vn : Bool) (t : Nat) :
+    ∀ (cs : List (Nat × Nat)) (s : σ) (log : List (Nbhd2 α × (Nat × Nat) × Nat)),
+      cellVals (logged2 rule) g R C r vn t cs (s, log)
+        = ((cellVals rule g R C r vn t cs s).1,
+           ((cellVals rule g R C r vn t cs s).2,
+            log ++ cs.map fun c => (nbhd g R C r vn c.1 c.2, c, t)))
+  | [], _, _ => by simp [cellVals]
+  | (i, j) :: cs, s, log => by
+    simp only [cellVals, logged2]
+    rw [cellVals_logged rule g R C r vn t cs]
+    simp [List.append_assoc]
+
+end
 
 end Cpl
